@@ -41,8 +41,8 @@ class Number(Element):
         self,
         *args,
         format="%f",
-        min: Optional[float] = None,
-        max: Optional[float] = None,
+        min: float = 0,
+        max: float = 0,
         step: float = 0,
         **kwargs
     ):
